@@ -35,7 +35,7 @@ TRUSTED = ['Coq 8.16.1 kernel (coqc; coqchk in the thorough tier)',
            'Model/Propagate.v + Proofs/PropagateP.v (property C02) for the propagation step',
            'parametricity: the theorem instance (any ring) and the executed instance (group ring) are the same Gallina term']
 ASSUMPTIONS = ['segment masks pairwise disjoint, every segment and every intermediate field has more than one sample (else: known finding)',
-               'no tilt; pupil planes; wavelength, focal length, pixel scales dyadic; alpha = p/q, OPD = k*lambda/Lo, lcm <= 96',
+               'no tilt; pupil planes; wavelength, focal length, pixel scales dyadic; alpha = p/q, OPD = k*lambda/Lo, lcm <= 64',
                'comparison tolerance 1e-9*(1+max|expected|)']
 RULE = ('random supports <= 7x7 (quick) / 10x10 (thorough), random labelling into 1..4 segments (bounding boxes overlap), chains of '
         '1..3 pupils with scalar/array amplitude and OPD, propagate_dft with shape/prop_shape/oversample 1..3; each case run '
@@ -215,10 +215,10 @@ def special(c):
 
 def generate(rng, tier):
     quick = tier == 'quick'
-    n_seg, n_crop = (70, 25) if quick else (1300, 300)
+    n_seg, n_crop = (70, 25) if quick else (700, 200)
     maxn = 6 if quick else 10
-    maxs = 5 if quick else 8
-    Lmax = 48 if quick else 96
+    maxs = 5 if quick else 7
+    Lmax = 48 if quick else 64
     out = tries = n_find = 0
     while out < n_seg and tries < 100000:
         tries += 1
